@@ -77,6 +77,34 @@ def valid(inst, M, pc=False, lower=True):
     return True
 
 
+def validity_defects(inst, M, pc=False):
+    """Reasons why M is not a valid matching (empty list = valid)."""
+    out = []
+    sr = srank(inst)
+    if len(M) != inst.ns:
+        return ["matching-length"]
+    for i, p in enumerate(M):
+        if p and p not in sr[i]:
+            out.append("unlisted-project")
+    if out:
+        return sorted(set(out))
+    pl, ll = loads(inst, M)
+    for j, (lq, uq) in enumerate(inst.pq):
+        n = pl[j]
+        if pc and n == 0:
+            continue
+        if n > uq:
+            out.append("project-over-uq")
+        if n < lq:
+            out.append("project-under-lq")
+    for k, (lq, t, uq) in enumerate(inst.lq3):
+        if ll[k] > uq:
+            out.append("lecturer-over-uq")
+        if ll[k] < lq:
+            out.append("lecturer-under-lq")
+    return sorted(set(out))
+
+
 def blocking_pairs(inst, M):
     """SPA-STL blocking pairs of M: list of (student, project, kinds)."""
     sr = srank(inst)
